@@ -376,6 +376,10 @@ static std::string state_key(World& w)
   auto sk2 = slot_keys(w.sb2);
   for (size_t i = 0; i < sk2.size(); i++)
     if (sk2[i]) k += std::to_string(i) + ":" + std::to_string(fn_index(sk2[i])) + ",";
+  // the operation applied last: state a change adds to the library (a "most recent" cache, a remembered slot) is not among the
+  // fields read above, so two histories that end differently are not merged even when every known field agrees
+  auto pos = w.hist.rfind(' ');
+  k += "|last=" + (pos == std::string::npos ? w.hist : w.hist.substr(pos + 1));
   return k;
 }
 
